@@ -438,7 +438,14 @@ def rule_wmin(rep, F, inv, aud):
             short = to.rsplit("::", 1)[-1]
             if short.endswith("_sz"):
                 rep.inst("W-min")
-                rep.violation("W-min", "%s|%s" % (base, short), "%s calls the explicit-size writer %s: heads longer than necessary can be emitted" % (base, short), {})
+                # an explicit size is canonical by construction when it is the result of cbor_event::Sz::canonical(argument)
+                from ruleutil import direct_call_of
+                t_ = fn["bbs"][c.bb]["t"]
+                src_ = direct_call_of(fn, t_[3][-1]) if t_[3] else None
+                if src_ and src_[1].endswith("Sz::canonical"):
+                    rep.allow("W-min")
+                    continue
+                rep.violation("W-min", "%s|%s" % (base, short), "%s calls the explicit-size writer %s with a size that is not Sz::canonical(..): heads longer than necessary can be emitted" % (base, short), {})
             if short == "write_raw_bytes":
                 rep.inst("W-min")
                 if base not in raw_ok:
